@@ -414,6 +414,29 @@ func evBitBack(t *Tracer, q QK, hz, ovz, S, mn, mx int64) {
 	t.Emit(e, true)
 }
 
+// evBitBackList: several height-range keys converted back together.
+func evBitBackList(t *Tracer, qs []QK, hz, ovz, S, mn, mx int64) {
+	maxH, minH := unitsToM(mx, S), unitsToM(mn, S)
+	in := make([]*object.QuadkeyAndVerticalID, len(qs))
+	keys := make([]any, len(qs))
+	for i, q := range qs {
+		in[i] = object.NewQuadkeyAndVerticalID(q.QZ, digitsToKey(q.Digits), q.VZ, q.VI, maxH, minH)
+		keys[i] = []any{q.QZ, q.Digits, q.VZ, q.VI}
+	}
+	o, res := guard(func() (any, error) {
+		return transform.ConvertQuadkeysAndVerticalIDsToExtendedSpatialIDs(in, hz, ovz)
+	})
+	e := absW.ev("BitBackList", map[string]any{"keys": keys, "hz": hz, "ovz": ovz, "S": S, "mn": mn, "mx": mx})
+	e.O, e.Real = o, map[string]any{"maxHeight": fmt.Sprint(maxH), "minHeight": fmt.Sprint(minH)}
+	e.R = []any{}
+	if o == "panic" {
+		e.Bad = "panic"
+	} else {
+		e.R = absW.projBIDList(strs(res), false, &e.Bad)
+	}
+	t.Emit(e, true)
+}
+
 func driveTiles(t *Tracer, r Rng, n int) {
 	for i := 0; i < n; {
 		E := r.In(0, 35)
@@ -731,6 +754,39 @@ func driveBits(t *Tracer, r Rng, n int) {
 				continue
 			}
 			evBitBack(t, QK{QZ: qz, Digits: d, VZ: vz, VI: k}, hz, ovz, S, mn, mx)
+			if mx > mn && vz >= 1 && r.Chance(0.4) {
+				// the same column's keys at other subdivision zooms with the SAME numbers (a merged binary column repeats
+				// key 1 at successive zooms), a repeat, and a neighbour - converted back together
+				qs := []QK{{QZ: qz, Digits: d, VZ: vz, VI: k}}
+				okAll := true
+				for _, dz := range []int64{-1, -2, 1} {
+					vz2 := vz + dz
+					if vz2 < 0 || vz2 > 12 || k > (int64(1)<<uint(vz2))-1 {
+						continue
+					}
+					lo2 := mn<<uint(vz2) + k*span
+					sh2 := ovz - 25 - S - vz2
+					run2 := span
+					if sh2 > 0 {
+						run2 = span << uint(minI(sh2, 40))
+					} else {
+						run2 = span >> uint(minI(-sh2, 62))
+					}
+					if abs64(lo2) >= 1<<28 || abs64(lo2+span) >= 1<<28 || sh2 > 0 && (abs64(lo2+span)+1)<<uint(minI(sh2, 40)) >= 1<<28 || run2 > 64 {
+						okAll = false
+						continue
+					}
+					qs = append(qs, QK{QZ: qz, Digits: d, VZ: vz2, VI: k})
+				}
+				if r.Chance(0.3) {
+					qs = append(qs, qs[0])
+				}
+				_ = okAll
+				if len(qs) > 1 {
+					r.Shuffle(len(qs), func(a, b int) { qs[a], qs[b] = qs[b], qs[a] })
+					evBitBackList(t, qs, hz, ovz, S, mn, mx)
+				}
+			}
 		}
 		i++
 	}
